@@ -3,4 +3,4 @@ From PV Require Import Lib.ExtractBase Model.Provider Model.Preload Model.Preloa
 Extraction Language OCaml.
 Extraction "extracted/C14_model.ml" xb_types deliver chosen_entries bound cyc_prefix ids spec14_b constructor_refuses
   deliver_c file_entries chosen_content view_of spec14c_b
-  deliver_m view_m req_spec init_fails spec14m_b.
+  deliver_m view_m req_spec init_fails close_fails spec14m_b.
